@@ -50,3 +50,14 @@ Definition parse_thermostat_reply (response : bytes) : result thermostat_fields 
   do remote <- (if utf8_valid (pyslice 84 92 response) then Ok (rstrip0 (pyslice 84 92 response)) else Exc UnicodeDecodeError) ;;
   Ok {| tf_on := on; tf_mode := mode; tf_fan := fan; tf_temp10 := t10; tf_target := target;
         tf_swing_on := swing_on; tf_remote := remote |}.
+
+(* ---- shutter state reply (SwitcherShutterStateResponse): direction first, then position ---- *)
+Record shutter_fields := { sh_position : N; sh_direction : string }.
+Definition parse_shutter_reply (response : bytes) : result shutter_fields :=
+  let hex := hexlify response in
+  do dir <- (match lookup_value (pyslice 156 160 hex) shutter_directions with Some d => Ok d | None => Exc KeyError end) ;;
+  do pos <- int16r (pyslice 152 154 hex) ;;
+  Ok {| sh_position := pos; sh_direction := dir |}.
+
+(* SwitcherLoginResponse.session_id *)
+Definition login_session (response : bytes) : bytes := pyslice 16 24 (hexlify response).
